@@ -690,6 +690,8 @@ pub const F64_BITS: &[u64] = &[
     0x47ef_ffff_e000_0000, 0x47ef_ffff_e000_0001, 0x47ef_ffff_efff_ffff, 0x47ef_ffff_f000_0000, 0x47f0_0000_0000_0000,
     0x47ef_ffff_e091_ff3d, 0x36a0_0000_0000_0000, 0x3690_0000_0000_0000, 0x3690_0000_0000_0001, 0x3810_0000_0000_0000,
     0x380f_ffff_ffff_ffff, 0x3ff0_0000_1000_0000, 0x3ff0_0000_3000_0000, 0x3ff0_0000_1000_0001,
+    // inside the binade after f32::MAX (exponent field exactly 255 with a non-zero fraction), and the next one
+    0x47f8_0000_0000_0000, 0xc7f8_0000_0000_0000, 0x47ff_ffff_ffff_ffff, 0x4800_0000_0000_0000, 0x4808_0000_0000_0000,
 ];
 
 fn g_f32(rng: &mut Rng) -> f32 {
